@@ -153,4 +153,10 @@ example : verifyHeader { cfg := mainCfg 144 [] } { id := 900005, prev := 900003,
 example : verifyHeader { cfg := mainCfg 144 [] } { id := 900004, prev := 900003, bits := 0x18021fdb, time := 1542304936 } = .wrongChain := by decide
 example : verifyHeader { cfg := mainCfg 144 [] } { id := 77, prev := 900003, bits := 0x18021fdb, time := 1542304936 } = .unknown := by decide
 
+/-- **C03 (LoadBranch rebuilds the hash→height map from the saved prune offset), tie to the source.** Regenerated
+    from /repo on every run: the map starts at `parentHeight + offset` (the model's `loadBranch` does the same), not at
+    `parentHeight + 1` — the height of a header offered on a loaded tip — which keys the split checks at 556767 — comes from this map. -/
+theorem C03_loadBranch_height_start_in_source :
+    Facts.loadBranchHeightStart = "result.parentHeight + result.offset" := by decide
+
 end BRV.Repo
